@@ -415,6 +415,11 @@ INVALID = [
     ("data-arity3", "data is (ts, value, 3)"),
     ("data-dict", "data is {ts: value}"),
     ("data-none", "data is None"),
+    # shape (name, (ts, value)) intact, but a field of a type that is no number and no string
+    ("value-none", "value is None"),
+    ("value-dict", "value is {1: 2}"),
+    ("ts-none", "timestamp is None"),
+    ("ts-list", "timestamp is [255]"),
 ]
 
 
@@ -488,6 +493,14 @@ def mk_item(flavour, spec):
         return cont(c[0], [name, {ts: val}])
     if kind == "data-none":
         return cont(c[0], [name, None])
+    if kind == "value-none":
+        return cont(c[0], [name, cont(c[1], [ts, None])])
+    if kind == "value-dict":
+        return cont(c[0], [name, cont(c[1], [ts, {1: 2}])])
+    if kind == "ts-none":
+        return cont(c[0], [name, cont(c[1], [None, val])])
+    if kind == "ts-list":
+        return cont(c[0], [name, cont(c[1], [[255], val])])
     raise ValueError(kind)
 
 
@@ -653,7 +666,7 @@ def build_corpus():
                     ccs = ("tt",)
                 elif kind in ("item-arity0", "item-arity1"):
                     ccs = ("tt", "lt")
-                elif kind in ("data-dict", "data-none"):
+                elif kind in ("data-dict", "data-none", "value-none", "value-dict", "ts-none", "ts-list"):
                     ccs = ("tt", "lt")
                 for cc in ccs:
                     x = ["!", kind, cc]
@@ -662,7 +675,11 @@ def build_corpus():
                         shapes = [[x], [v1, x, v2]]
                     for sh in shapes:
                         c.conn("invalid-item", [c.add_frame(flavour, proto, sh)])
+                # an invalid item at the end of a frame must not reach into the next frame of the connection
+                last = c.add_frame(flavour, proto, [v1, ["!", kind, "tt"]])
+                c.conn("invalid-item-frames", [last, c.add_frame(flavour, proto, [v2])])
             # two invalid items in one frame
+            c.conn("invalid-item", [c.add_frame(flavour, proto, [["!", "value-none", "tt"], v1, ["!", "ts-none", "tt"], v2])])
             c.conn("invalid-item", [c.add_frame(flavour, proto, [["!", "item-arity1", "tt"], v1, ["!", "data-dict", "tt"]])])
             c.conn("invalid-item", [c.add_frame(flavour, proto, [["!", "name-int", "tt"], ["!", "item-none", "tt"], v1])])
 
